@@ -1052,7 +1052,7 @@ M('C04-revert-fix05-guard', 'C04', F_PNG,
   expect='R-C04-refuse')
 M('C04-revert-fix04-kinds', 'C04', F_PNG,
   "        code_bytes = bytes(code)\n", "        code_bytes = bytes(code, 'ascii')\n",
-  expect='R-C04-kinds')
+  expect='R-C04-header')
 M('C04-header-zeros-dropped', 'C04', F_PNG,
   "            [b':c:\\0', code_length_bytes, b'\\0\\0',\n",
   "            [b':c:\\0', code_length_bytes, b'',\n", expect='R-C04-header')
